@@ -2,7 +2,7 @@
 # verify_seeded.sh <PROP> <k> : confirm a sub-agent's change in its scratch worktree
 #   (suite passes with the change; demo exits 1 with it and 0 without), then store it as
 #   /verif/seeded/<PROP>-m<k>/{patch.diff,demo.py,meta.json}
-P=$1; K=$2
+P=$1; K=$2; T=${3:-$2}   # T: index under which the change is stored (later waves: m4..)
 WT=/tmp/mut/wt_$P; OUT=/tmp/mut/out_$P
 set -e
 git -C $WT checkout -q -- . ; git -C $WT clean -fdq
@@ -17,7 +17,7 @@ git -C $WT checkout -q -- . ; git -C $WT clean -fdq
 PYTHONPATH=$WT /venv/bin/python $OUT/m${K}_demo.py > /dev/shm/demo_without.txt 2>&1; D0=$?
 echo "demo_with_change_exit=$D1 demo_without_change_exit=$D0 suite_with_change_exit=$S ($(tail -1 /dev/shm/suite_with.txt))"
 if [ $D1 = 1 ] && [ $D0 = 0 ] && [ $S = 0 ]; then
-  D=/verif/seeded/$P-m$K; mkdir -p $D
+  D=/verif/seeded/$P-m$T; mkdir -p $D
   cp $OUT/m$K.diff $D/patch.diff; cp $OUT/m${K}_demo.py $D/demo.py
   /venv/bin/python - "$P" "$K" "$D" <<'PY'
 import json, sys, subprocess
